@@ -7,6 +7,7 @@ from fractions import Fraction
 import z3
 
 from . import ops, extract
+from . import keyed as _keyed
 from .ops import exc, is_number
 from .values import (
     Ref, ListE, DequeE, SetE, DictE, ObjE, NdE, SymListE, FuncVal, BoundMethod, ClassVal, BuiltinClass,
@@ -608,6 +609,10 @@ def dict_method(I, st, ref, name):
             for s2, v in M.dict_symbolic_get(I, st, st.get(ref), a[0]):
                 yield s2, (default if isinstance(v, Exc) else v)
             return
+        if _keyed.needs_resolution(I, st, d, a[0]):
+            for s2, k1, found in _keyed.resolve_key(I, st, ref, a[0]):
+                yield s2, (k1 if isinstance(k1, Exc) else (s2.get(ref).items[k1] if found else default))
+            return
         yield st, d.get(I.hashable(a[0]), default)
 
     def items(I, st, a, k):
@@ -634,6 +639,17 @@ def dict_method(I, st, ref, name):
 
     def pop(I, st, a, k):
         d = D(st)
+        if not is_z3(a[0]) and _keyed.needs_resolution(I, st, d, a[0]):
+            for s2, k1, found in _keyed.resolve_key(I, st, ref, a[0]):
+                if isinstance(k1, Exc):
+                    yield s2, k1
+                elif found:
+                    yield s2, s2.get(ref).items.pop(k1)
+                elif len(a) > 1:
+                    yield s2, a[1]
+                else:
+                    yield s2, exc("KeyError", k1)
+            return
         key = I.hashable(a[0])
         if key in d:
             yield st, d.pop(key)
@@ -644,6 +660,16 @@ def dict_method(I, st, ref, name):
 
     def setdefault(I, st, a, k):
         d = D(st)
+        if not is_z3(a[0]) and _keyed.needs_resolution(I, st, d, a[0]):
+            for s2, k1, found in _keyed.resolve_key(I, st, ref, a[0]):
+                if isinstance(k1, Exc):
+                    yield s2, k1
+                    continue
+                d2 = s2.get(ref).items
+                if not found:
+                    d2[k1] = a[1] if len(a) > 1 else None
+                yield s2, d2[k1]
+            return
         key = I.hashable(a[0])
         if key not in d:
             d[key] = a[1] if len(a) > 1 else None
@@ -722,6 +748,13 @@ def set_method(I, st, ref, name):
             out = [x for x in out if x not in other]
         yield st, st.alloc(SetE(out))
 
+    def difference_update(I, st, a, k):
+        # s.difference_update(*others): remove every element found in any of the others (in place, returns None)
+        for src in a:
+            other = [I.hashable(x) for x in I.iterate(src, st)]
+            S(st)[:] = [x for x in S(st) if x not in other]
+        yield st, None
+
     def issubset(I, st, a, k):
         other = I.iterate(a[0], st)
         yield st, all(x in other for x in S(st))
@@ -730,7 +763,7 @@ def set_method(I, st, ref, name):
         yield st, st.alloc(SetE(S(st)))
 
     tbl = dict(add=add, discard=discard, remove=remove, update=update, union=union, intersection=intersection,
-               difference=difference, issubset=issubset, copy=copy)
+               difference=difference, difference_update=difference_update, issubset=issubset, copy=copy)
     if name not in tbl:
         raise Unsupported("set method " + name)
     return bi("set." + name, tbl[name])
